@@ -78,11 +78,11 @@ func (s *TieredCompactionStrategy) selectL0Compaction() (*CompactionTask, error)
 		return nil, nil
 	}
 
-	// Sort L0 files by sequence number to prioritize older files
+	// Sort L0 files by age to prioritize older files
 	files := make([]*SSTableInfo, len(s.levels[0]))
 	copy(files, s.levels[0])
 	sort.Slice(files, func(i, j int) bool {
-		return files[i].Sequence < files[j].Sequence
+		return files[i].olderThan(files[j])
 	})
 
 	// Take up to maxCompactFiles from L0
@@ -133,11 +133,11 @@ func (s *TieredCompactionStrategy) selectL0Compaction() (*CompactionTask, error)
 
 // selectPromotionCompaction selects a file to promote to the next level
 func (s *TieredCompactionStrategy) selectPromotionCompaction(level int) (*CompactionTask, error) {
-	// Sort files by sequence number
+	// Sort files by age
 	files := make([]*SSTableInfo, len(s.levels[level]))
 	copy(files, s.levels[level])
 	sort.Slice(files, func(i, j int) bool {
-		return files[i].Sequence < files[j].Sequence
+		return files[i].olderThan(files[j])
 	})
 
 	// Select the oldest file
@@ -158,11 +158,11 @@ func (s *TieredCompactionStrategy) selectPromotionCompaction(level int) (*Compac
 
 // selectOverlappingCompaction selects files for compaction based on key overlap
 func (s *TieredCompactionStrategy) selectOverlappingCompaction(level int) (*CompactionTask, error) {
-	// Sort files by sequence number to start with oldest
+	// Sort files by age to start with oldest
 	files := make([]*SSTableInfo, len(s.levels[level]))
 	copy(files, s.levels[level])
 	sort.Slice(files, func(i, j int) bool {
-		return files[i].Sequence < files[j].Sequence
+		return files[i].olderThan(files[j])
 	})
 
 	// Select an initial file from this level
